@@ -146,6 +146,7 @@ typedef struct {
   int        tcp_connect; /* 0 immediate success, 1 async success, 2 refused immediately, 3 refused later, 4 never completes */
   int        tcp_connect_delay_ms;
   int        tcp_close_after_answer; /* the server closes the stream right after each batch of answers it sent */
+  int      dup_copies;             /* >1: every UDP reply that makes the client re-send is put on the wire this many times */
   int      tc_over_tcp;            /* the server truncates over TCP too (its answer does not fit in 64 KiB, or it is broken) */
   int        udp_answers_tc_over_tcp; /* when a TC was sent, TCP gets a normal answer */
   /* cookies (server side) */
@@ -249,6 +250,7 @@ typedef struct {
   int      tcp_write_mode;   /* 0 full, 1 random partial, 2 one byte */
   int      wblock_permille;  /* chance that a TCP write returns EWOULDBLOCK first */
   int      udp_wblock_permille; /* chance that a UDP send returns EWOULDBLOCK (socket buffer full) */
+  int      bsd_send_on_connecting; /* send() on a stream socket whose handshake is not finished fails with ENOTCONN (BSD, macOS, Windows) instead of EAGAIN (Linux) */
   int      fail_downgrade_resend; /* errno for the first datagram that re-sends a query whose last transmission was answered FORMERR without OPT (0: none) */
   uint8_t  local4[4];
   uint8_t  local6[16];
@@ -792,7 +794,10 @@ static ares_ssize_t vs_sendto(ares_socket_t s, const void *buf, size_t len, int 
       errno = ECONNREFUSED;
       return -1;
     }
-    errno = (v->conn == VC_PENDING) ? EAGAIN : ENOTCONN;
+    if (v->conn == VC_PENDING && sim_cfg.bsd_send_on_connecting) {
+      sim_note("tcp_send_on_connecting_socket_enotconn");
+    }
+    errno = (v->conn == VC_PENDING && !sim_cfg.bsd_send_on_connecting) ? EAGAIN : ENOTCONN;
     return -1;
   }
   if (v->wblock_budget > 0) {
